@@ -107,7 +107,9 @@ func VH_C10_K3_cross() {
 // escapes, and a successful result has the length announced by the header.
 func VH_C10_K4_c_safe() {
 	vrt.QlzReal()
-	vrt.KnownMemError("F22", "qlz_decompress: read")
+	// F22 covers every out-of-object access of qlz_decompress on a crafted stream: reads of the
+	// source/destination and (at the thorough bounds) writes past the destination
+	vrt.KnownMemError("F22", "qlz_decompress:")
 	vrt.AllocLimit(1 << 16)
 	n := 9 + vrt.Choice("extra", tiered(5, 8)) // 9..13 (thorough 9..16) input bytes
 	raw := vrt.Bytes("b", n)
